@@ -86,6 +86,13 @@ pub mod thread {
         }
     }
 
+    /// Harness: the next `Builder::spawn` fails as if the OS had refused to create the thread
+    /// (an environment answer the code under test has to cope with).
+    static FAIL_NEXT_SPAWN: std::sync::atomic::AtomicBool = std::sync::atomic::AtomicBool::new(false);
+    pub fn fail_next_spawn() {
+        FAIL_NEXT_SPAWN.store(true, std::sync::atomic::Ordering::SeqCst);
+    }
+
     #[derive(Debug)]
     pub struct Builder(loom::thread::Builder);
 
@@ -110,6 +117,9 @@ pub mod thread {
             F: FnOnce() -> T + Send + 'static,
             T: Send + 'static,
         {
+            if FAIL_NEXT_SPAWN.swap(false, std::sync::atomic::Ordering::SeqCst) {
+                return Err(std::io::Error::from(std::io::ErrorKind::WouldBlock));
+            }
             self.0.spawn(track(f))
         }
     }
